@@ -50,10 +50,20 @@ func toLower(in []byte) []byte {
 	out := make([]byte, 0, len(in))
 	var buf [4]byte
 	for _, c := range string(in) {
-		i := utf8.EncodeRune(buf[:], unicode.ToLower(c))
+		i := utf8.EncodeRune(buf[:], foldLower(c))
 		out = append(out, buf[:i]...)
 	}
 	return out
+}
+
+// foldLower returns the lower case form of r, unless that form is not
+// equivalent to r under simple case folding (İ lower-cases to i, which is not
+// a case variant of İ for the trigram index or the regexp engine).
+func foldLower(r rune) rune {
+	if l := unicode.ToLower(r); l == r || equalFoldRune(l, r) {
+		return l
+	}
+	return r
 }
 
 // compare 'lower' and 'mixed', where lower is the needle. 'mixed' may
@@ -85,7 +95,11 @@ func caseFoldingEqualsRunes(lower, mixed []byte) (int, bool) {
 		mixed = mixed[msz:]
 		matchTotal += msz
 
-		if lr != unicode.ToLower(mr) {
+		// Compare under simple case folding, like the trigram variants
+		// (generateCaseNgrams) and the regexp engine do. unicode.ToLower is
+		// not enough: σ, ς and Σ are case variants of one another, but ς is
+		// its own lower case form.
+		if lr != mr && !equalFoldRune(lr, mr) {
 			return 0, false
 		}
 	}
